@@ -7,6 +7,7 @@ CONSTANTS
   AllowPtr = FALSE
   AllowConstPtr = FALSE
   AllPerms = TRUE
+  ChainMode = FALSE
   Stepwise = TRUE
 INVARIANTS VerifyAgreeSound ClosureOK
 CHECK_DEADLOCK FALSE
